@@ -92,6 +92,12 @@ def init_value(chain, kidx, shape, dtype):
     return v.reshape(shape).astype(dtype)
 
 
+def kid(ki: int) -> str:
+    """Kernel identifiers chosen by the 'user': deliberately NOT in alphabetical order of the configured
+    sequence (k7, k6, k5, ...), so that anything that orders kernels by name shows up."""
+    return f"k{7 - ki}"
+
+
 def replicated(case):
     """Through the builder one state is replicated to all chains (unless multi-chain
     initial values are requested explicitly)."""
@@ -177,7 +183,7 @@ def make_kernels(case, write=True):
             for c, t, code in case["err"][ki]["cells"]:
                 tab[c, t] = code
         ks.append(ProbeKernel(b["keys"], ki, nlog, prev_key=prev, needs_history=b["needs_history"],
-                              err_table=tab, write=write, identifier=f"k{ki}"))
+                              err_table=tab, write=write, identifier=kid(ki)))
     return ks
 
 
